@@ -86,6 +86,9 @@ def classify(case, detail):
         return "K-dialect-update-merge-columns@C02"
     d = case.get("dialect")
     what = detail.get("what", "")
+    if any(f.startswith("set_expression:") for f in feats) and what == "column pairs differ" and detail.get("missing") and not detail.get("extra") \
+            and all(p[1].endswith(".c2") for p in detail["missing"]):
+        return "K-set-expression@C02"  # only the pairs of the expression-valued assignment (always to c2 in the probes) are missing
     if "setop_first_branch_sourceless_item" in feats and what == "column pairs differ":
         # positions shift from the first source-less item on; inside a derived table other roots end up under the target names
         return "K-union-literal@C02"
@@ -369,6 +372,17 @@ def update_merge_statements():
                 sets = (("c1", C(q1, "c1")),) + ((("c2", C(q2, "c2")),) if nset == 2 else ())
                 where = ir.Cmp(C(q1, "k"), "=", C(talias or "s9.tgt", "k"))
                 out.append((ir.Update(tgt, sets, frm, where), ["kind:Update", "update_from:" + fname, f"sets={nset}", "target_alias" if talias else "target_plain"]))
+    # assignments whose right-hand side is an expression, not a plain column (finding probes: K-set-expression)
+    exprs = [("function", lambda a, b: ir.Func("coalesce", (a, b))), ("arithmetic", lambda a, b: ir.Bin("+", a, ir.Lit("1"))), ("cast", lambda a, b: ir.Cast(a, "int", "cast")),
+             ("case", lambda a, b: ir.Case(((ir.Cmp(a, ">", ir.Lit("0")), b),), a))]
+    for ename, eb in exprs:
+        frm = (G(T(None, "ta", "a", True), (J("JOIN", T("s2", "tb"), on("a", "s2.tb")),)),)
+        sets = (("c1", C("a", "c1")), ("c2", eb(C("a", "c2"), C("s2.tb", "c2"))))
+        out.append((ir.Update(T("s9", "tgt"), sets, frm, None), ["kind:Update", "update_from:join", "set_expression:" + ename]))
+        out.append((ir.Merge(T("s9", "tgt"), T(None, "ta", "a", True), ir.Cmp(C("s9.tgt", "k"), "=", C("a", "k")), (("c1", C("a", "c1")), ("c2", eb(C("a", "c2"), C("a", "c3")))), ()),
+                    ["kind:Merge", "merge_source:aliased", "set_expression:" + ename, "merge:upd"]))
+        out.append((ir.Merge(T("s9", "tgt"), T(None, "ta", "a", True), ir.Cmp(C("s9.tgt", "k"), "=", C("a", "k")), (), (("k", C("a", "k")), ("c2", eb(C("a", "c2"), C("a", "c3"))))),
+                    ["kind:Merge", "merge_source:aliased", "set_expression:" + ename, "merge:ins"]))
     srcs = [("table", T(None, "ta"), "ta"), ("aliased", T("s1", "ta", "s", True), "s"), ("derived", der, "d"), ("derived_join", derj, "d"),
             ("derived_inner_alias_equals_own_alias", D(S((I(C("d", "c2"), "c1", True), I(C("d", "c1"), "c2", True), I(C("d", "k"))), (G(T("s1", "tu", "d", True)),)), "d", True), "d")]
     for sname, src, q in srcs:
